@@ -240,6 +240,12 @@ func NewShared(a *App) *Shared {
 	return s
 }
 
+// ScriptedResult is what the n-th call of a scripted function answers (for oracles that
+// work from the recorded call log).
+func (a *App) ScriptedResult(sym string, n int, l string, input []byte) (resource.Result, error) {
+	return a.scripted(sym, n, l, input)
+}
+
 // scripted computes the n-th answer of a scripted function.
 func (a *App) scripted(sym string, n int, l string, input []byte) (resource.Result, error) {
 	sp := a.Sym(sym)
